@@ -178,7 +178,7 @@ def walk(e):
     yield e
     if isinstance(e, tuple):
         for x in e:
-            if isinstance(x, tuple):
+            if isinstance(x, tuple) and x:
                 for y in walk(x):
                     yield y
 
